@@ -53,6 +53,23 @@ def _look(table, ident, what):
     return table[ident]
 
 
+def _flag(body, name, fn):
+    """how the nested emitter of fn gets its flag: emitter.<name> = true | false | <name>; absent = the Reset() default false"""
+    ms = re.findall(r"emitter\s*\.\s*%s\s*=\s*(\w+)\s*;" % name, body)
+    if not ms:
+        return "FFalse"
+    if len(ms) > 1:
+        raise TranslatorError("%s: emitter.%s assigned more than once" % (fn, name))
+    v = ms[0]
+    if v == "true":
+        return "FTrue"
+    if v == "false":
+        return "FFalse"
+    if v == name:
+        return "FInherit"
+    raise TranslatorError("%s: emitter.%s = %s is not expressible in the model" % (fn, name, v))
+
+
 def translate(repo=None):
     repo = repo or vlib.REPO
     h = open(os.path.join(repo, "src", "Script", "Compiler.h")).read()
@@ -64,6 +81,8 @@ def translate(repo=None):
            "",
            "(* which of the two jump tables / counters / limits / overflow errors *)",
            "Inductive which := WB | WC.",
+           "(* how a nested counting emitter gets a flag: constant, or the enclosing emitter's current value *)",
+           "Inductive flagsrc := FTrue | FFalse | FInherit.",
            ""]
     lim = {}
     for name, w in LIM.items():
@@ -135,15 +154,18 @@ def translate(repo=None):
         out.append("Definition switch_sub_depth : N := %s.   (* EmitSwitch: ScriptEmitter emitter(countManager, .., info, %s) *)" % (m.group(1), m.group(1)))
     else:
         out.append("Definition switch_sub_depth : N := 18446744073709551615.   (* EmitSwitch: ScriptEmitter emitter(countManager, .., info): default maxDepth *)")
-    if not re.search(r"emitter\s*\.\s*canBreak\s*=\s*true\s*;", b) or re.search(r"emitter\s*\.\s*canContinue", b):
-        raise TranslatorError("EmitSwitch: flags of the nested emitter changed")
+    out.append("Definition switch_sub_canbreak := %s." % _flag(b, "canBreak", "EmitSwitch"))
+    out.append("Definition switch_sub_cancontinue := %s." % _flag(b, "canContinue", "EmitSwitch"))
     if not re.search(r"iStartBreakJumpLocCount\s*=\s*iBreakJumpLocCount\s*;", b) or \
        not re.search(r"ProcessBreakJumpLocations\s*\(\s*iStartBreakJumpLocCount\s*\)", b):
         raise TranslatorError("EmitSwitch: save/restore of the break count changed")
     b = _body(c, "void ScriptEmitter::EmitCatch(")
-    if not re.search(r"ScriptEmitter\s+emitter\s*\(\s*countManager\s*,\s*\*?\s*stateScript\s*,\s*info\s*\)\s*;", b) or \
-       re.search(r"emitter\s*\.\s*can(Break|Continue)", b):
+    if not re.search(r"ScriptEmitter\s+emitter\s*\(\s*countManager\s*,\s*\*?\s*stateScript\s*,\s*info\s*\)\s*;", b):
         raise TranslatorError("EmitCatch: nested emitter construction changed")
+    out.append("Definition catch_sub_canbreak := %s." % _flag(b, "canBreak", "EmitCatch"))
+    out.append("Definition catch_sub_cancontinue := %s." % _flag(b, "canContinue", "EmitCatch"))
+    if not re.search(r"emitter\s*\.\s*EmitRoot\s*\(\s*val\s*\)\s*;[\s\S]*EmitValue\s*\(\s*val\s*\)\s*;", b):
+        raise TranslatorError("EmitCatch: the body is no longer emitted once by the nested emitter and once for real")
     m = re.search(r"ScriptEmitter\s*\(\s*IScriptManager\s*&\s*\w+\s*,\s*StateScript\s*[&*]\s*\w+\s*,\s*const\s+OutputInfo\s*\*\s*\w+\s*,\s*size_t\s+maxDepth\s*=\s*-1\s*\)", h)
     if not m:
         raise TranslatorError("ScriptEmitter constructor: default maxDepth changed")
